@@ -153,6 +153,43 @@ func c13Historical(c *Ctx) {
 	// C13.R10 — no negative power: the power of a stored validator is only ever
 	// one of the constants written at the tabled sites (1 on creation, 0 on
 	// removal / executor change); genesis validation bounds imported powers.
+	// "bonded validators never exceed the maximum (so block processing never aborts)": the
+	// sanity panic of GetLastValidators (reached from BeginBlock through TrackHistoricalInfo)
+	// may fire only when MORE than MaxValidators entries were collected - a set of exactly
+	// MaxValidators, which AddValidator and SetParams admit, must pass
+	c.Rule("C13.R11", func() {
+		fn := c.Method(childKeeper, "Keeper", "GetLastValidators")
+		o := c.Ob("C13.R11", "GetLastValidators: the capacity panic needs strictly more collected validators than MaxValidators")
+		po := PO{Params: []string{"k", "ctx"}, Callbacks: true, WalkRounds: 2, NoInline: []string{"mustGetValidator", "Keeper).MaxValidators", "Keeper).GetValidator"}}
+		maxIs := func(t *Term) bool {
+			k := strip(t).Key()
+			return strings.HasSuffix(k, "MaxValidators(k, ctx).0") || strings.HasSuffix(k, "MaxValidators(k, ctx).0)")
+		}
+		nPanic, nOK := 0, 0
+		for _, p := range c.Paths(fn, po) {
+			o.Paths++
+			o.Facts += p.NFacts()
+			if !p.Panic {
+				if p.OK() {
+					nOK++
+				}
+				continue
+			}
+			nPanic++
+			o.Sites++
+			// elements collected when the panic fires = callback invocations begun
+			k := len(p.Find(func(ev *Event) bool { return ev.Kind == EvCbBegin }))
+			rel, n := p.Relation(len(p.Events), maxIs, keyIs(fmt.Sprint(k)))
+			if n == 0 || rel != rLT {
+				o.Fail(c.W.Pos(fn.Pos()), fmt.Sprintf("panics after collecting %d validator(s) with relation(MaxValidators, %d) = %s (want <): a bonded set of exactly MaxValidators aborts block processing", k, k, relString(rel)), c.Dump(p, -1))
+			}
+		}
+		if nOK == 0 {
+			o.Fail(c.W.Pos(fn.Pos()), "no returning path", nil)
+		}
+		_ = nPanic
+	})
+
 	c.Rule("C13.R10", func() {
 		o := c.Ob("C13.R10", "Validator.ConsPower is written only at the tabled sites with the constants 1 (NewValidator) and 0 (RemoveValidator, ChangeExecutor): a stored power is never negative and updates told to consensus are 0 or positive")
 		allowed := map[string]string{
